@@ -4,6 +4,8 @@ Property theorems only; helper lemmas live in PP/Proofs.
 -/
 import PP.Proofs.Sound
 import PP.Model.Render
+import PP.Model.Values
+import PP.Proofs.EvBound
 namespace PP.C04
 open PP Doc
 
@@ -21,6 +23,19 @@ theorem sound_plain (w rw : Int) (smart : Bool) (d : Doc) :
     ∃ c', Lay (Cfg.Ev { w := w, rw := rw, smart := smart }) d 0 .brk 0
       (layout { w := w, rw := rw, smart := smart } d) c' :=
   layout_sound _ (by intro sp i c; simp [Doc.normalize, Doc.size, StrSpec.bound]) d
+
+/-- **C04.sound_pformat** — engine soundness for the configuration `pformat` really runs (string contextuals evaluated
+by `pretty_str`'s evaluator): no hypothesis.  The stream printed for *any* value, with any settings, is a rendering of
+the document the printers built. -/
+theorem sound_pformat (s : Pr.Settings) (v : Pr.PyVal) :
+    ∃ c', Lay s.cfg.Ev (Pr.topDoc s.ctx v) 0 .brk 0 (Pr.sdocsM s v) c' :=
+  layout_sound s.cfg (Pr.evalStr_bounded _ _ _) _
+
+/-- the same for any document laid out with the string evaluator at any widths -/
+theorem sound_str (w rw : Int) (smart : Bool) (d : Doc) :
+    ∃ c', Lay (Cfg.Ev { w := w, rw := rw, smart := smart, ev := Pr.evalStr }) d 0 .brk 0
+      (layout { w := w, rw := rw, smart := smart, ev := Pr.evalStr } d) c' :=
+  layout_sound _ (Pr.evalStr_bounded _ _ _) d
 
 /-! ### annotations come out as properly nested push/pop pairs -/
 
@@ -74,6 +89,11 @@ end
 /-- **C04.ann_balanced** — the push/pop events of every emitted stream are well bracketed and all closed. -/
 theorem ann_balanced (cfg : Cfg) (hb : cfg.EvBounded) (d : Doc) : bal (layout cfg d) [] = some [] := by
   obtain ⟨c', h⟩ := sound cfg hb d
+  exact lay_bal h []
+
+/-- annotations of everything `pformat` prints are well bracketed — no hypothesis -/
+theorem ann_balanced_pformat (s : Pr.Settings) (v : Pr.PyVal) : bal (Pr.sdocsM s v) [] = some [] := by
+  obtain ⟨c', h⟩ := sound_pformat s v
   exact lay_bal h []
 
 /-! ### the default renderer alters the text only by trimming trailing whitespace -/
